@@ -42,11 +42,14 @@ CONSTANTS Catalogue,  \* sequence of basis sets (each a sequence of K vectors of
           ThinT,      \* keep one training stack of two or more RDMs in ThinT
           PatSels,    \* set of pattern_idx sequences (0-based condition indices)
           CompMax,    \* competitor weights -CompMax..CompMax
+          FitKinds,   \* sessions: set of <<fitter, method>> that may be run one after the other on one model object
+          MaxFits,    \* sessions: number of fits in a row
           NFam,       \* "fam" behaviours: model families over 1..NFam component models
           LinGrid     \* "lin" behaviours: second weight vector ranges over -LinGrid..LinGrid
 
-VARIABLES bid, train, pidx, pc, comp, th2, cc
-fvars == <<objs, hist, bid, train, pidx, pc, comp, th2, cc>>
+VARIABLES bid, train, pidx, pc, comp, th2, cc,
+          fits    \* the fits performed so far on THIS model object and THIS data (sequence of <<fitter, method>>)
+fvars == <<objs, hist, bid, train, pidx, pc, comp, th2, cc, fits>>
 
 L == CLen(NC)
 RECURSIVE SumS(_)
@@ -130,7 +133,7 @@ TrainStacks == UNION {{v \in [1..R -> TrainRows] :
                             (th = 1 \/ SumS([r \in 1..R |-> (ks[r] \div ThinR) * (2 * r + 1)]) % th = 0)}
                       : R \in RSet}
 
-Common == /\ objs = [o \in 1..MaxObj |-> IF o = 1 THEN Source ELSE Null] /\ hist = <<>>
+Common == /\ objs = [o \in 1..MaxObj |-> IF o = 1 THEN Source ELSE Null] /\ hist = <<>> /\ fits = <<>>
 \* materialised once (TLC evaluates constant definitions at start-up)
 TrainStackList == SetToSeq(TrainStacks)
 \* paths for interpolation models: every RDM of the path and every training RDM varies on the selection
@@ -157,7 +160,7 @@ CompSpaceI == {[k |-> "s", v |-> <<j>>] : j \in 1..K}
               \cup {[k |-> "i", v |-> <<sg, w4>>] : sg \in 1..(K - 1), w4 \in 0..4}
 Adversary == /\ \/ pc = "prob" /\ comp' \in CompSpace /\ pc' = "comp"
                 \/ pc = "probi" /\ comp' \in CompSpaceI /\ pc' = "comp"
-             /\ UNCHANGED <<objs, hist, bid, train, pidx, th2, cc>>
+             /\ UNCHANGED <<objs, hist, bid, train, pidx, th2, cc, fits>>
 
 \* "lin" behaviours: predictions only (clauses g, h)
 LInit == /\ Common /\ bid \in 1..Len(Catalogue) /\ train = <<>> /\ pidx = <<>>
@@ -165,7 +168,7 @@ LInit == /\ Common /\ bid \in 1..Len(Catalogue) /\ train = <<>> /\ pidx = <<>>
 PickThetas == /\ pc = "lin0"
               /\ th2' \in [1..K -> (-LinGrid)..LinGrid]
               /\ cc' \in {-2, 3} /\ pc' = "lin"
-              /\ UNCHANGED <<objs, hist, bid, train, pidx, comp>>
+              /\ UNCHANGED <<objs, hist, bid, train, pidx, comp, fits>>
 (* ---------------- model families and the bookkeeping of the model classes --------------- *)
 \* rsatoolbox.model.ModelFamily: the members are the non-empty subsets of the n component models, numbered in the
 \* order of itertools.combinations - by size, then lexicographically; member i is the weighted model over the
@@ -194,7 +197,27 @@ ModelFacts == [nparam |-> [w |-> K, s |-> 1, i |-> K, f |-> 0], nrdm |-> K,
                defW |-> Predict(Ones(K), Basis),          \* weighted: all ones
                defS |-> Basis[1],                         \* selection: the first RDM
                defI2 |-> VAdd(Basis[1], Basis[2])]        \* interpolation: TWICE (1/2, 1/2, 0, ..)
-FNext == Adversary \/ PickThetas
+(* ---------------- sessions: several fits, one after the other, on ONE model object ------------------ *)
+\* A fit reads the model (its basis RDMs, its descriptors) and the data and returns parameters; it is not an output of any
+\* fit.  So the state of the model - bid, i.e. Catalogue[bid] - and the data are unchanged by Fit, and Predict(theta) after
+\* any number of fits is still SUM theta_k basis_k of the ORIGINAL basis; a later fit is the fit of a fresh model.
+Fit(k) == /\ pc = "sess" /\ Len(fits) < MaxFits /\ k \in FitKinds
+          /\ fits' = Append(fits, k)
+          /\ UNCHANGED <<objs, hist, bid, train, pidx, pc, comp, th2, cc>>
+ModelFrame == [][bid' = bid /\ train' = train /\ pidx' = pidx]_fvars
+\* sessions run on the full condition set (no missing entries, the model's own vectors are what the fitter works on)
+FullSel == [k \in 1..NC |-> k - 1]
+SInit == /\ Common /\ ~InterpOnly
+         /\ \E i \in 1..Len(TrainStackList) : train = TrainStackList[i]
+         /\ bid \in 1..Len(Catalogue) /\ pidx = FullSel
+         /\ ProblemOK(bid, train, pidx)
+         /\ pc = "sess" /\ comp = <<>> /\ th2 = <<>> /\ cc = 0
+\* the 'index' descriptor holds VALUES, not positions: relabelling the conditions' index values (model, data and pattern_idx
+\* alike, e.g. 3..NC+2 after a subset_pattern) restricts to the same entries
+ObOff(off) == [Source EXCEPT !.pidx = [k \in 1..NC |-> Source.pidx[k] + off]]
+TemplateOff(p, off) == SubsamplePats(ObOff(off), "index", [k \in 1..Len(p) |-> p[k] + off]).vec[1]
+RelabelFree == pc \in {"prob", "probi"} => TemplateOff(pidx, 3) = Template(pidx)
+FNext == Adversary \/ PickThetas \/ (\E k \in FitKinds : Fit(k))
 
 (* ---------------- theorems ------------------------------------------------------ *)
 \* g: the prediction is linear in the weights
@@ -242,6 +265,9 @@ EmitF ==
                                  sel |-> IF Len(train) = 1 THEN SetSeq(BestSel(XCos(pidx), RC(train[1], pidx))) ELSE <<>>]]))
   /\ pc = "comp" =>
        PrintT(ToJson([t |-> "comp", bid |-> bid, train |-> train, pidx |-> pidx, k |-> comp.k, v |-> comp.v]))
+  /\ (pc = "sess" /\ Len(fits) = MaxFits) =>
+       PrintT(ToJson([t |-> "sess", bid |-> bid, basis |-> Basis, train |-> train, fits |-> fits,
+                      th |-> Ones(K), pred |-> Predict(Ones(K), Basis), th2 |-> [k \in 1..K |-> k], pred2 |-> Predict([k \in 1..K |-> k], Basis)]))
   /\ pc = "fam" =>
        PrintT(ToJson([t |-> "fam", n |-> comp[1], i |-> comp[2], subset |-> FamilyList(comp[1])[comp[2]],
                       ind |-> Indicator(comp[1], FamilyList(comp[1])[comp[2]])]))
